@@ -19,7 +19,7 @@ RULE = (
     "candidate plates"
 )
 ASSUMPTIONS = ["batches are subsets of the unobserved plates of the screen", "scores are finite or -inf (no NaN)"]
-REQUIRED = {"combined_holders_saved_and_reloaded": {"quick": 200, "thorough": 2500}, "batches_with_observed_plates": {"quick": 40, "thorough": 500}, "cli_selections_with_policy_and_empty_batch": {"quick": 15, "thorough": 100}, "dbal_end_to_end_runs_with_batch": {"quick": 5, "thorough": 60}, "dbal_scores_vs_reference": {"quick": 30, "thorough": 500}, "coverage_checks": {"quick": 800, "thorough": 10000}, "conditioning_checks": {"quick": 1500, "thorough": 20000}, "selections_checked": {"quick": 1800, "thorough": 25000}, "cli_runs": {"quick": 30, "thorough": 500}, "selections_none": {"quick": 20, "thorough": 400}}
+REQUIRED = {"batches_spelled_unsorted_or_with_repeats": {"quick": 300, "thorough": 4000}, "combined_holders_saved_and_reloaded": {"quick": 200, "thorough": 2500}, "batches_with_observed_plates": {"quick": 40, "thorough": 500}, "cli_selections_with_policy_and_empty_batch": {"quick": 15, "thorough": 100}, "dbal_end_to_end_runs_with_batch": {"quick": 5, "thorough": 60}, "dbal_scores_vs_reference": {"quick": 30, "thorough": 500}, "coverage_checks": {"quick": 800, "thorough": 10000}, "conditioning_checks": {"quick": 1500, "thorough": 20000}, "selections_checked": {"quick": 1800, "thorough": 25000}, "cli_runs": {"quick": 30, "thorough": 500}, "selections_none": {"quick": 20, "thorough": 400}}
 N_SCREENS = {"quick": 960, "thorough": 12800}
 
 
@@ -265,9 +265,21 @@ def run_shard(rec, tier, seed, shard, nshards):
                             return res
 
                         policy.filter_eligible_plates = wrapped
-                    sel = select_next_plate(comb, screen, policy, batch_plate_ids=(list(batch) if batch_arg is not None else None), rng=np.random.default_rng(0))
+                    # a batch is a set of plate ids: the caller may list them in any order and more than once
+                    spelled = list(batch)
+                    if len(spelled) >= 1 and rng.random() < 0.5:
+                        spelled = [spelled[i] for i in rng.permutation(len(spelled))]
+                        if rng.random() < 0.5:
+                            spelled.insert(int(rng.integers(0, len(spelled) + 1)), spelled[int(rng.integers(len(spelled)))])
+                        rec.count("batches_spelled_unsorted_or_with_repeats")
+                    sel = select_next_plate(comb, screen, policy, batch_plate_ids=(spelled if batch_arg is not None else None), rng=np.random.default_rng(0))
                     if pol_kind == "kper":
                         kper_allowed = recd.get("allowed")
+                        # what the policy allows for this batch, asked directly with each batch plate once
+                        ref_pol = KPerSamplePlatePolicy(policy.k)
+                        ref_allowed = sorted(int(p.plate_id) for p in ref_pol.filter_eligible_plates(batch_plates=[screen.get_plate(b) for b in sorted(set(batch))], unobserved_plates=[screen.get_plate(c) for c in cand], rng=np.random.default_rng(0)))
+                        rec.check(kper_allowed is None or sorted(kper_allowed) == ref_allowed, "C06/select/policy-handed-wrong-sets", lambda: "batch spelled %r: inside select_next_plate the policy allowed %r, asked directly with batch %r it allows %r" % (spelled, sorted(kper_allowed or []), sorted(set(batch)), ref_allowed), w)
+                        kper_allowed = ref_allowed
                 except ValueError as e:
                     if pol_kind == "kper" and "exactly one sample" in str(e):
                         rec.did_not_return("select:kper-multi-sample", e)
